@@ -114,7 +114,7 @@ class _Blocks(object):
 class SimT3T(object):
     def __init__(self, attr, data=b"", nblocks=None, idm=bytes.fromhex("02FE000102030405"),
                  pmm=bytes.fromhex("00FFFFFFFFFFFFFF"), nbr_phys=None, nbw_phys=None,
-                 other=b"\x5A" * 32, cut_after=None, fill=0x00, gen=None, nsys=1, ndef_pos=0):
+                 other=b"\x5A" * 32, cut_after=None, fill=0x00, gen=None, nsys=1, ndef_pos=0, outage=None):
         attr = bytes(attr)
         assert len(attr) == 16
         nmaxb = int.from_bytes(attr[3:5], "big")
@@ -140,6 +140,10 @@ class SimT3T(object):
         self.nbw_phys = attr[2] if nbw_phys is None else nbw_phys
         self.writable = attr[10] != 0
         self.cut_after = cut_after
+        # transient outage (k, r): the write command FRAMES number k..k+r-1 (0-based, retransmissions count) do
+        # not reach the tag (not executed, no answer, logged with drop=True); later frames are served again
+        self.outage = outage
+        self.nwframes = 0
         self.nwrites = 0
         self.log = []               # dict(sc=[..], blocks=[..], data=bytes, ok=) per write command received
         self.reads = []             # list of block-number lists per executed read command
@@ -150,6 +154,7 @@ class SimT3T(object):
     def power_on(self):
         self.powered = True
         self.cut_after = None
+        self.outage = None
         self.reads = []
         self.read_sys = []
 
@@ -203,6 +208,13 @@ class SimT3T(object):
         if code == 0x08:
             if self.cut_after is not None and self.nwrites >= self.cut_after:
                 self.powered = False
+                return None
+            self.nwframes += 1
+            if self.outage is not None and self.outage[0] <= self.nwframes - 1 < sum(self.outage):
+                err, scs, lst, rest = parse_lists(body)
+                if lst is not None:
+                    self.log.append(dict(drop=True, sys=self.cur, sc=[sc for sc, n in lst], blocks=[n for sc, n in lst],
+                                         data=bytes(rest), ok=False))
                 return None
             n0 = self.nwrites
             rsp = self._write(body)
